@@ -73,6 +73,10 @@ CHECKS = {
           'memdb', 'DESIGN.md section 4 C19',
           'Generated storage-schemas.conf / storage-aggregation.conf (section order, overlapping patterns, missing keys, all unit suffixes, multi-archive retentions, key capitalisation) loaded through the writer\'s reload functions; each new metric is stored and one writer pass produces the create() call whose arguments must equal the evaluator\'s first-match result.',
           'Backend archive validation not modelled; malformed retention strings not generated.'),
+  'C15': ('exploration', 'round-trip property-based testing: real client factory + simulated reactor -> bytes -> real listener, exact rational tolerance check',
+          'simreactor', 'DESIGN.md section 4 C15',
+          'Generated datapoint lists (random 64-bit doubles, boundary magnitudes, huge ints, +-inf, fractional timestamps, non-ASCII names) queued in the real client factory, sent in MAX_DATAPOINTS_PER_MESSAGE batches by the pickle and line client protocols and fed under generated segmentation to the matching listener; count/order/name exact, pickle values bit-exact, line values within the stated tolerance (checked in exact rational arithmetic). One inherent half-ulp band recorded as a known finding.',
+          'protobuf not importable here; client and listener joined at the transport boundary.'),
 }
 
 PENDING_REASON = 'check not built yet in this session (design in DESIGN.md section 4); will be claimed once its check is quiet on the unchanged tree and catches its mutants'
@@ -122,6 +126,8 @@ def main():
 
 NA = {}
 ENGINES = [
+  {'name': 'simreactor', 'path': 'verif/simreactor.py', 'serves_properties': ['C07', 'C09', 'C15'],
+   'kind_free_text': 'task.Clock-based reactor double with connectTCP; the harness plays connection made/failed/lost, transport pause/resume and time'},
   {'name': 'ring', 'path': 'verif/ref/ring.py', 'serves_properties': ['C05', 'C06', 'C16'],
    'kind_free_text': 'independent re-implementation of the published carbon_ch/fnv1a_ch ring + a real metric name for each of the 65536 ring positions'},
   {'name': 'sched', 'path': 'verif/sched.py', 'serves_properties': ['C02', 'C03', 'C04', 'C09', 'C10', 'C17', 'C20'],
